@@ -42,8 +42,8 @@ struct Program {
     delay_permille: u32,
 }
 
-const UNIQUE_CLASSES: [&str; 6] = ["P8", "PB", "L40", "LS", "S4", "L16"];
-const ALL_CLASSES: [&str; 9] = ["P8", "PB", "L40", "LS", "S4", "L16", "S1", "Z0", "ZA"];
+const UNIQUE_CLASSES: [&str; 8] = ["P8", "PB", "L40", "LS", "S4", "L16", "N8", "N40"];
+const ALL_CLASSES: [&str; 12] = ["P8", "PB", "L40", "LS", "S4", "L16", "S1", "Z0", "ZA", "N4", "N8", "N40"];
 
 fn gen_short(rng: &mut Rng, miri: bool, classes: &[&'static str]) -> Program {
     let cap = *rng.pick(&[Some(0), Some(0), Some(1), Some(2), None]);
@@ -298,7 +298,7 @@ fn run_program<T: Payload>(p: &Program, seed: u64, long: bool, closer_delay_us: 
             fp::set_random_delays(0, 0, 1);
             let sig = fp::trace_signature();
             let mut events: Vec<Event> = logs.into_iter().flatten().collect();
-            if T::UNIQUE {
+            if T::TRACKED {
                 oracles::resolve_consumed(&mut events, l);
             }
             Ok(RunOut { events, s0, r0, sig })
@@ -465,7 +465,7 @@ fn main() {
             let rseed = prng.next();
             let closer_delay = if closer_span > 0 { rseed % closer_span } else { 0 };
             fn go<T: Payload>(p: &Program, seed: u64, long: bool, cd: u64, g: Duration, c: Duration) -> (Result<RunOut, RunErr>, bool) {
-                (run_program::<T>(p, seed, long, cd, g, c), T::UNIQUE)
+                (run_program::<T>(p, seed, long, cd, g, c), T::TRACKED)
             }
             let (r, unique) = with_class!(p.class, go(&p, rseed, mode != "short", closer_delay, grace, cap_wall));
             let replay = format!("hist --mode {} --seed {} --only-program {} --programs {} --runs {} --per-thread {} --max-threads {} --classes {} --caps {}", mode, seed, pi, pi + 1, runs.max(200), per_thread, maxthreads, classes.join(","), caps_arg);
